@@ -46,6 +46,7 @@ Init == HeapInit /\ hist = <<>>
 NextStep ==
   \/ /\ hist = <<>> /\ \E b \in Bases : Step(<<"new", b>>) /\ Rec(<<"new", b>>)
   \/ /\ hist # <<>> /\ Len(hist) < Depth
+     /\ ~(last[1] = "obs" /\ last[2][1] = "unspec")     \* a step outside every claim ends the program: nothing after it is specified
      /\ \E h \in Handles :
         \/ /\ Len(heap) < MaxH
            /\ \E s \in Sels[SelSet] : LET st == <<"select", h, s[1], s[2]>> IN Step(st) /\ Rec(st)
